@@ -7,6 +7,7 @@ import shutil
 import subprocess
 import tempfile
 import threading
+import time
 
 from vlib import KESTREL, KDRV, WORK, ToolError, run_driver, write_jsonl, read_jsonl, workdir
 
@@ -31,7 +32,7 @@ class Run:
 
 
 def kestrel(args, env=None, stdin=b"", timeout=60, cwd=None, stdout_path=None, stdin_path=None, raw_env=None, setsid=False,
-            stdout_closed=False, rlimit_as=None):
+            stdout_closed=False, rlimit_as=None, stdin_pieces=None):
     """Run the CLI with a clean environment.  stdin is a pipe (never a terminal).  raw_env: further variables given as
     bytes (values that are not UTF-8); setsid: in a session of its own, i.e. without a controlling terminal."""
     e = {"PATH": "/usr/bin:/bin", "HOME": "/nonexistent", "LANG": "C.UTF-8"}
@@ -47,6 +48,50 @@ def kestrel(args, env=None, stdin=b"", timeout=60, cwd=None, stdout_path=None, s
         rfd, wfd = os.pipe()
         os.close(rfd)
         fout = os.fdopen(wfd, "wb")
+    if stdin_pieces and not fin:
+        # stdin is fed in pieces of this many bytes with pauses in between, the way a slow producer feeds a pipe: the tool's
+        # reads come back short long before end of input
+        pre = (lambda: __import__("resource").setrlimit(__import__("resource").RLIMIT_AS, (rlimit_as, rlimit_as))) if rlimit_as else None
+        pr = subprocess.Popen([KESTREL] + list(args), stdin=subprocess.PIPE, stdout=fout if fout else subprocess.PIPE, stderr=subprocess.PIPE,
+                              env=e, cwd=cwd, start_new_session=setsid, preexec_fn=pre)
+
+        def feed():
+            try:
+                for o in range(0, len(stdin), stdin_pieces):
+                    pr.stdin.write(stdin[o:o + stdin_pieces])
+                    pr.stdin.flush()
+                    time.sleep(0.004)
+            except (BrokenPipeError, OSError):
+                pass
+            finally:
+                try:
+                    pr.stdin.close()
+                except OSError:
+                    pass
+        th = threading.Thread(target=feed, daemon=True)
+        th.start()
+        try:
+            out, err = b"", b""
+            # communicate() would write stdin itself; read the two pipes with threads instead
+            bufs = {}
+
+            def drain(nm, f):
+                bufs[nm] = f.read() if f else b""
+            t1 = threading.Thread(target=drain, args=("o", pr.stdout if not fout else None), daemon=True)
+            t2 = threading.Thread(target=drain, args=("e", pr.stderr), daemon=True)
+            t1.start()
+            t2.start()
+            pr.wait(timeout=timeout)
+            t1.join(5)
+            t2.join(5)
+            th.join(5)
+            return Run(pr.returncode, bufs.get("o", b""), bufs.get("e", b""))
+        except subprocess.TimeoutExpired:
+            pr.kill()
+            return Run(-999, b"", b"", timed_out=True)
+        finally:
+            if fout:
+                fout.close()
     try:
         p = subprocess.run([KESTREL] + list(args), input=None if fin else stdin, stdin=fin,
                            stdout=fout if fout else subprocess.PIPE, stderr=subprocess.PIPE,
